@@ -353,7 +353,71 @@ def concurrent(ctx, n):
             ctx.violation("concurrent AddChild/RemoveChild broke the children list: " + a, {"domain": "item", "concurrent": json.loads(l), "impl": a})
 
 
+def dedupe_in_the_pipeline(ctx, n):
+    """de-duplication as the preprocessor applies it to a seed's tree, pass after pass (real preprocess / postprocess, scripted site): chains that
+    come back to a URL already visited, requisites that redirect to one another, a lone fresh node that duplicates a processed one. Judged:
+    no URL is fetched by two different non-seed nodes, and a URL the page planted is fetched (or excused) - never discarded altogether."""
+    from . import stage
+    r = ctx.rng
+    h = core.Interactive("stage")
+    run_ = stage.Run(ctx, h)
+    try:
+        for k in range(n):
+            site = stage.Site()
+            base = "http://site.example"
+            shape = k % 4
+            if shape == 0:      # start -> /b -> /c -> /b : the chain returns to a visited URL, alone on its level
+                site.add(base + "/start%d" % k, status=302, location="/b%d" % k)
+                site.add(base + "/b%d" % k, status=302, location="/c%d" % k)
+                site.add(base + "/c%d" % k, status=302, location="/b%d" % k)
+                seed, planted = base + "/start%d" % k, [base + "/b%d" % k, base + "/c%d" % k]
+            elif shape == 1:    # a stylesheet-like document whose only requisite the page already had
+                site.add(base + "/page%d" % k, assets=["/img/x%d.png" % k, "/data%d.json" % k], outlinks=[])
+                site.add(base + "/img/x%d.png" % k, ctype="image/png", body="\x89PNG\r\n\x1a\n" + "0" * 20, kind="bin")
+                site.add(base + "/data%d.json" % k, ctype="application/json", kind="json", assets=[base + "/img/x%d.png" % k], outlinks=[])
+                seed, planted = base + "/page%d" % k, [base + "/img/x%d.png" % k, base + "/data%d.json" % k]
+            elif shape == 2:    # two requisites redirecting to the same target, one of them via a detour
+                site.add(base + "/hub%d" % k, assets=["/r1_%d" % k, "/r2_%d" % k, "/t%d.png" % k], outlinks=[])
+                site.add(base + "/r1_%d" % k, status=301, location="/t%d.png" % k)
+                site.add(base + "/r2_%d" % k, status=301, location="/r1_%d" % k)
+                site.add(base + "/t%d.png" % k, ctype="image/png", body="\x89PNG\r\n\x1a\n" + "1" * 20, kind="bin")
+                seed, planted = base + "/hub%d" % k, [base + "/r1_%d" % k, base + "/r2_%d" % k, base + "/t%d.png" % k]
+            else:               # random duplicates among requisites
+                names = ["/a%d.png" % k, "/b%d.png" % k, "/c%d.png" % k]
+                assets = [r.choice(names) for _ in range(r.randrange(2, 8))]
+                site.add(base + "/dups%d" % k, assets=assets, outlinks=[])
+                seed, planted = base + "/dups%d" % k, [base + x for x in set(assets)]
+            cfg = {"includeHosts": [], "includeStrings": [], "excludeHosts": list(stage.DEFAULT_EXCLUDED), "excludeStrings": [], "regexes": [], "disableAssets": False,
+                   "maxHops": 0, "maxRedirect": 5, "disableSeencheck": True, "domainsCrawl": [], "disableHTMLTag": [], "captureAlternatePages": False}
+            act, tree, trace = stage.run_seed(run_, cfg, site, seed, seed_id="dd%d" % k, max_passes=12)
+            rp = {"domain": "stage", "cfg": cfg, "seed": seed, "site": site.pages}
+            ctx.case("pipe-dedupe" + json.dumps([shape, seed, sorted(site.pages)]), True)
+            ctx.count("pipeline-dedupe:shape%d" % shape)
+            by = {}
+            bad = False
+            for q in trace["requests"]:
+                if not q["chain"]:
+                    continue
+                if q["canon"] in by and by[q["canon"]] != q["id"]:
+                    ctx.violation("%s is fetched by two different nodes of the tree of %s (de-duplication left two nodes for one URL)" % (q["canon"], seed), dict(rp, url=q["canon"]))
+                    bad = True; break
+                by[q["canon"]] = q["id"]
+            if bad:
+                continue
+            got = {q["canon"] for q in trace["requests"]}
+            for u in planted:
+                if u not in got:
+                    ctx.violation("%s, referenced in the tree of %s, was never fetched: de-duplication discarded the URL altogether" % (u, seed), dict(rp, url=u)); break
+            else:
+                if act not in ("finish",):
+                    ctx.violation("the seed %s did not end (%s after %d passes): completion is not detected" % (seed, act, trace["passes"]), rp)
+    finally:
+        h.send({"op": "close"}); h.close()
+    stage.compare(ctx, run_, "C11 dedupe in the pipeline")
+
+
 def run(ctx):
+    dedupe_in_the_pipeline(ctx, 200 if ctx.thorough() else 16)
     known = known_lookup(ctx)
     for ops in corpus(ctx):
         replay_ops(ctx, ops, known)
@@ -372,6 +436,24 @@ def run(ctx):
 
 def replay(ctx, doc):
     rp = doc.get("replay", doc)
+    if rp.get("domain") == "stage":
+        from . import stage
+        h = core.Interactive("stage")
+        run_ = stage.Run(ctx, h)
+        try:
+            site = stage.Site(); site.pages = rp["site"]
+            act, tree, trace = stage.run_seed(run_, rp["cfg"], site, rp["seed"], seed_id="replay", max_passes=12)
+            by = {}
+            for q in trace["requests"]:
+                if q["chain"]:
+                    if q["canon"] in by and by[q["canon"]] != q["id"]:
+                        ctx.violation("replay: %s fetched by two nodes" % q["canon"], rp)
+                    by[q["canon"]] = q["id"]
+            if rp.get("url") and rp["url"] not in {q["canon"] for q in trace["requests"]}:
+                ctx.violation("replay: %s was never fetched" % rp["url"], rp)
+        finally:
+            h.send({"op": "close"}); h.close()
+        return
     if "concurrent" in rp:
         rc, out, err = core.run_impl("item", [json.dumps(dict(rp["concurrent"], op="concurrent"))], timeout=900)
         if not out[0].startswith("ok"):
